@@ -117,6 +117,14 @@ func C02_Curated() {
 		"def a { x = 1001\n def b { z = 1002\n def c { y = x\n w = z } } }\n",
 		"def a { x = 1001\n def b { x = 1002\n def c { x = 1003\n def d { y = x } } } }\n",
 		"def a { x = 1001\n def b { def c { x = 1002 }\n y = x } }\n",  // a sibling's child does not count
+		"def t { x = nil\n y = x\n print x }\n",                          // a field holding nil is still a field
+		"def a { x = 1001\n def b { x = nil\n y = x } }\n",                // inner nil field shadows the outer one
+		"var u\ndef t { f = u\n g = f\n print g }\n",                      // uninitialised variable into a field
+		"def t { var z = 1001\n def u { } }\nprint z\n",                   // block variable gone although a nested block followed
+		"def t { var z = 1001\n def u { } }\ndef w { var z = 1002\n f = z }\n",
+		"def t { var p = 1001\n def u { } }\ndef w { p = 1002\n q = p }\n", // p is a field in w
+		"def t { var v = 1001 }\ndef u { v = 1002 }\n",                     // first variable of the program declared in a block
+		"def t { var v = 1001\n def i { var w = 1002 } x = v }\ndef u { v = 1003\n w = v }\n",
 	}
 	src := progs[verif.Choice("prog", len(progs))]
 	values := map[string]any{}
@@ -147,6 +155,7 @@ func C02_Many() {
 		src += "var v" + itoa(i) + " = " + itoa(i+2) + "\n"
 	}
 	src += "print v" + itoa(n-1) + " + v0\n"
+	src += "eval v" + itoa(n-1) + " = 7\nprint v" + itoa(n-1) + "\nprint v0\n"
 	if inBlock {
 		src += "f = v" + itoa(n-1) + "\n}\nvar w = 3\nprint w + before\n"
 	} else {
